@@ -41,3 +41,18 @@ Theorem C17_arity_and_features :
   /\ features = [("default", ["parse_unknown_fields"]); ("parse_unknown_fields", [])]%string.
 Proof. repeat split; reflexivity. Qed.
 Print Assumptions C17_arity_and_features.
+
+(* non-vacuity: a known-only template and its data decode identically with the feature off and
+   on; under a template with an element the library does not know (40000) the feature-on build
+   reports the record, the feature-off build reports none (the bytes stay in the padding) *)
+Example C17_example :
+  let known := [x00; x09; x00; x01; x00; x00; x00; x01; x00; x00; x00; x02; x00; x00; x00; x03; x00; x00; x00; x04; x00; x00; x00; x10; x01; x00; x00; x02; x00; x07; x00; x02; x00; x0b; x00; x02] ++ [x00; x09; x00; x01; x00; x00; x00; x01; x00; x00; x00; x02; x00; x00; x00; x05; x00; x00; x00; x04; x01; x00; x00; x08; x01; xbb; x00; x35] in
+  let unknown := [x00; x09; x00; x01; x00; x00; x00; x01; x00; x00; x00; x02; x00; x00; x00; x06; x00; x00; x00; x04; x00; x00; x00; x10; x01; x01; x00; x02; x00; x07; x00; x02; x9c; x40; x00; x02] ++ [x00; x09; x00; x01; x00; x00; x00; x01; x00; x00; x00; x02; x00; x00; x00; x07; x00; x00; x00; x04; x01; x01; x00; x08; x01; xbb; x00; x35] in
+  parse_bytes false (allow_list default_allowed) empty_state known = parse_bytes true (allow_list default_allowed) empty_state known
+  /\ (match parse_bytes true (allow_list default_allowed) empty_state unknown, parse_bytes false (allow_list default_allowed) empty_state unknown with
+      | Some [_; (PV9 p, _)], Some [_; (PV9 q, _)] =>
+          (exists recs, map fs_body (v9_sets p) = [V9Data recs []] /\ length recs = 1%nat)
+          /\ map fs_body (v9_sets q) = [V9Data [] [x01; xbb; x00; x35]]
+      | _, _ => False
+      end).
+Proof. vm_compute. split; [reflexivity|]. split; [eexists; split; reflexivity|reflexivity]. Qed.
